@@ -17,6 +17,9 @@ func bigInt(n int64) *big.Int { return big.NewInt(n) }
 type undecided struct{ reason string }
 
 func (ex *Exec) unsupported(n ast.Node, f string, a ...interface{}) {
+	if n == nil || isNilNode(n) {
+		panic(undecided{fmt.Sprintf(f, a...)})
+	}
 	panic(undecided{fmt.Sprintf("%s: %s", ex.P.pos(n), fmt.Sprintf(f, a...))})
 }
 
